@@ -23,6 +23,18 @@ theorem refuses_tilted_wavefront (one : K) (fs : List (Fld K)) (W0 W1 : Int) (dx
     propagateFft one fs true W0 W1 dx0 dx1 du0 du1 wl z os shape scratch = FftOut.notImplemented := by
   simp [propagateFft]
 
+/-- **A wavefront in which ANY field carries tilt metadata is refused** — not only the first field, not only when all do:
+`_has_tilt` (generated) is true as soon as one entry of the per-field tilt counts is non-zero -/
+theorem refuses_any_tilted_field (one : K) (fs : List (Fld K)) (ntilt : List Int) (n : Int) (hn : n ∈ ntilt) (hpos : n ≠ 0)
+    (W0 W1 : Int) (dx0 dx1 du0 du1 wl z : R) (os : Int) (shape : Option (Int × Int)) (scratch : Option (Arr K)) :
+    propagateFft one fs (Gen.hasTilt ntilt) W0 W1 dx0 dx1 du0 du1 wl z os shape scratch = FftOut.notImplemented := by
+  have h : Gen.hasTilt ntilt = true := hasTilt_true_of_mem ntilt n hn hpos
+  rw [h]; exact refuses_tilted_wavefront one fs W0 W1 dx0 dx1 du0 du1 wl z os shape scratch
+
+/-- and a wavefront none of whose fields carries tilt is not refused on that account -/
+theorem untilted_not_refused (ntilt : List Int) (h : ∀ n ∈ ntilt, n = 0) : Gen.hasTilt ntilt = false :=
+  hasTilt_false_of_all_zero ntilt h
+
 /-- **Shapes larger than the grid are refused**: `shape·oversample > fft_shape` on some axis gives `ValueError` -/
 theorem refuses_larger_shape (one : K) (fs : List (Fld K)) (W0 W1 : Int) (dx0 dx1 du0 du1 wl z : R) (os : Int)
     (sh : Int × Int) (scratch : Option (Arr K))
@@ -99,7 +111,7 @@ theorem scratch_transparent (one : K) (fs : List (Fld K)) (W0 W1 S0 S1 : Int) (s
   congr 1
   apply sumRange_congr; intro a _
   congr 1
-  exact scratch_transparent_grid one fs W0 W1 S0 S1 scr scr' _ _ (emod_range _ _ hS.1) (emod_range _ _ hS.2)
+  exact scratch_transparent_grid one fs W0 W1 S0 S1 scr scr' _ _ (emod_rangeB _ _ hS.1) (emod_rangeB _ _ hS.2)
 
 end generic
 
@@ -141,7 +153,7 @@ theorem scratch_equals_no_scratch {K R : Type} [Add R] [Sub R] [Mul R] [Neg R] [
       congr 1
       apply sumRange_congr; intro a _
       congr 1
-      exact scratch_eq_pad fs W0 W1 _ _ scr hW hfit _ _ (emod_range _ _ hS.1) (emod_range _ _ hS.2)
+      exact scratch_eq_pad fs W0 W1 _ _ scr hW hfit _ _ (emod_rangeB _ _ hS.1) (emod_rangeB _ _ hS.2)
     · -- an empty grid: both transforms are empty sums
       have hsh : ∀ s : Option (Arr K), (fftGrid 1 fs W0 W1 (fftShape dx0 dx1 du0 du1 z wl os).1 (fftShape dx0 dx1 du0 du1 z wl os).2 s).s0
             = (fftShape dx0 dx1 du0 du1 z wl os).1 ∧
@@ -166,6 +178,7 @@ theorem reported_wavelength_isotropic {R : Type} [Field R] [RealLike R] [FftLike
     dftAlpha dx0 dx1 du0 du1 (propWavelength S S dx0 dx1 du0 du1 z os) z os = (1 / (S : R), 1 / (S : R)) := by
   have hp1 : dx1 * du1 ≠ 0 := hiso ▸ hp
   unfold dftAlpha propWavelength
+  simp only [Gen.dftAlphaCall, Gen.dftAlpha, Gen.fftWavelengths]
   rw [hcast, hcast]
   have e : ((S : R) / (os : R) * dx1 * du1) / z = ((S : R) / (os : R) * dx0 * du0) / z := by
     rw [mul_assoc, mul_assoc, hiso]
@@ -220,7 +233,7 @@ theorem fft_eq_dft_at_reported_wavelength (hcast : ∀ n : Int, (RealLike.ofInt 
   obtain ⟨hl, h0, h1, _, hg⟩ := h
   -- isotropic sampling gives a square grid
   have hsq : S0 = S1 := by
-    rw [← h0, ← h1]; simp only [fftShape, dftAlpha, hiso]
+    rw [← h0, ← h1]; simp only [fftShape, Gen.fftAlphaCall, Gen.dftAlpha, hiso]
   subst hsq
   have hSR : (S0 : R) ≠ 0 := Int.cast_ne_zero.mpr (by omega)
   rw [h0, h1] at hl hg
@@ -241,8 +254,6 @@ end fftdft
 /-! ### The same at `K = ℂ`, `R = ℝ`: the hypotheses hold for the real square root and the complex exponential -/
 section complex
 open Complex
-
-attribute [local instance] realLikeReal cxLikeComplex
 
 /-- **`_fft2` = unitary `dft2` with `alpha = 1/S` over ℂ**, no hypotheses beyond a non-empty grid: for every complex
 array, every grid parity and every output index. -/
